@@ -28,6 +28,10 @@ class ClassRef:
                 for t in n.targets:
                     if isinstance(t, ast.Name):
                         self.class_attrs[t.id] = n.value
+                    elif isinstance(t, (ast.Tuple, ast.List)) and all(isinstance(e, ast.Name) for e in t.elts):
+                        # `A, B, C = 0, 1, 2` in a class body: each name is the matching item of the value
+                        for i, e in enumerate(t.elts):
+                            self.class_attrs[e.id] = ast.copy_location(ast.Subscript(value=n.value, slice=ast.Constant(value=i), ctx=ast.Load()), n.value)
             elif isinstance(n, ast.AnnAssign) and isinstance(n.target, ast.Name) and n.value is not None:
                 self.class_attrs[n.target.id] = n.value
 
